@@ -55,7 +55,11 @@ def run_real(cmd, file_lines, argv):
     """One construction of the settings exactly as phonopy_script._read_phonopy_settings does it."""
     global _TMP
     if _TMP is None:
+        import atexit
+        import shutil
+
         _TMP = tempfile.mkdtemp(prefix="c18p_")
+        atexit.register(shutil.rmtree, _TMP, True)
     out = io.StringIO()
     try:
         with contextlib.redirect_stdout(out), contextlib.redirect_stderr(out):
